@@ -1,4 +1,7 @@
-"""Per-property configuration of ./check (engines, budgets, classification, trusted base)."""
+"""Per-property configuration of ./check.  Each property lives in tools/propdefs/<Cxx>.py, which
+defines PROP (engines, budgets, rule, trusted base), TEXT (manifest texts) and ENGINES
+(manifest engine entries).  This module only collects them."""
+import glob, importlib.util, os
 
 TRUSTED_BASE = [
     "Coq 8.16.1 kernel via coqc (full .vo build; vm_compute used, native_compute not used)",
@@ -14,32 +17,26 @@ ASSUMPTIONS = [
 
 
 def default_classify(inp, obs, tags):
+    """(distribution tags, non-trivial?) of one case."""
     kind = inp.split(" ", 1)[0]
     o = obs[0] if obs else ""
     cls = " ".join(o.split()[:2]) if o.startswith("err") else o.split(" ", 1)[0]
-    return [f"{kind}:{cls}"], True
+    return [f"{kind}:{cls}"] + list(tags), True
 
 
-def codec_classify(inp, obs, tags):
-    kind = inp.split(" ", 1)[0]
-    o = obs[0] if obs else ""
-    cls = " ".join(o.split()[:2]) if o.startswith("err") else o.split(" ", 1)[0]
-    trivial = o in ("err InvalidMetadataSize", "err WrongLength", "err BadWidth")
-    return [f"{kind}:{cls}"], not trivial
-
-
-PROPS = {
-    "C17": dict(
-        engines=[dict(
-            name="codec", classify=codec_classify,
-            quick=dict(cases=24000, shards=4, profiles=["debug", "release"]),
-            thorough=dict(cases=2000000, shards=16, profiles=["debug", "release"]),
-        )],
-        rule="inputs: 12 codec case kinds in rotation (metadata slots 60% valid / 40% boundary+malformed, encoders at and "
-             "around the limits, headers, pages, numeric widths 1-16, byte arrays, regions files with mixed valid/invalid "
-             "slots), all from one SplitMix64 state; non-trivial = not rejected by the very first length check; distinct = "
-             "distinct input string",
-        trusted_base=["UTF-8 validity is modelled by a hand-written DFA (Codec/Utf8.v), validated against String::from_utf8 differentially"],
-        assumptions=["change-record codecs are covered under C16 (same engine family)"],
-    ),
-}
+PROPS, TEXT, ENGINES = {}, {}, []
+_here = os.path.dirname(os.path.abspath(__file__))
+for _f in sorted(glob.glob(os.path.join(_here, "propdefs", "C*.py"))):
+    _spec = importlib.util.spec_from_file_location(os.path.basename(_f)[:-3], _f)
+    _m = importlib.util.module_from_spec(_spec)
+    _spec.loader.exec_module(_m)
+    _id = os.path.basename(_f)[:-3]
+    PROPS[_id] = _m.PROP
+    TEXT[_id] = _m.TEXT
+    for e in getattr(_m, "ENGINES", []):
+        if not any(x["name"] == e["name"] for x in ENGINES):
+            ENGINES.append(e)
+        else:
+            for x in ENGINES:
+                if x["name"] == e["name"]:
+                    x["serves_properties"] = sorted(set(x["serves_properties"]) | set(e["serves_properties"]))
